@@ -200,8 +200,9 @@ func main() {
 				return
 			}
 			prev = out
-			if closed {
-				if rg := simplify.DouglasPeucker(t).Ring(orb.Ring(in.Clone())); !same(orb.LineString(rg), out) || rg[0] != rg[len(rg)-1] {
+			// as a ring - closed or not, a ring is simplified as the vertex list it is
+			if n >= 1 {
+				if rg := simplify.DouglasPeucker(t).Ring(orb.Ring(in.Clone())); !same(orb.LineString(rg), out) || (closed && rg[0] != rg[len(rg)-1]) {
 					c.Failf("dp-ring", "DouglasPeucker(%v).Ring(%v) = %v, LineString gives %v", t, in, rg, out)
 					return
 				}
@@ -235,7 +236,7 @@ func main() {
 					}
 				}
 			}
-			if closed && n > 2 {
+			if n >= 1 {
 				if rg := simplify.Radial(dist, t).Ring(orb.Ring(in.Clone())); !same(orb.LineString(rg), out) {
 					c.Failf("radial-ring", "Radial(%v).Ring(%v) = %v, LineString gives %v", t, in, rg, out)
 					return
